@@ -10,15 +10,20 @@ use join_impl::chain::expr::{ActionExpr, ErrExpr, InitialExpr, ProcessExpr};
 use join_impl::chain::group::{ApplicationType, ExprGroup, MoveType};
 use join_impl::chain::Chain;
 use join_impl::handler::Handler;
-use join_impl::parse::utils::is_block_expr;
 use join_impl::JoinInputDefault;
 use quote::ToTokens;
 use syn::{Expr, Type};
 
+/// A block operand is a `{ … }` block expression — syn's own classification, independent of how the code under test
+/// classifies it (a brace-delimited macro call, an `unsafe { }` or `async { }` block, a closure … are not).
+fn is_block(e: &Expr) -> bool {
+    matches!(e, Expr::Block(_))
+}
+
 fn expr_op(e: &Expr) -> String {
     format!(
         "X {} :: {}",
-        if is_block_expr(e) { "B" } else { "E" },
+        if is_block(e) { "B" } else { "E" },
         canon(e.to_token_stream())
     )
 }
